@@ -23,7 +23,13 @@ PROPS["C14"] = dict(
                 "e2e:c14:to-old:aggregator", "e2e:c14:to-old:as4-aggregator-sent", "e2e:c14:from-old:routes", "e2e:c14:from-old:rib-path-equal", "e2e:c14:from-old:new-speaker-path-equal",
                 "e2e:c14:from-old:aggregator", "e2e:c14:from-old:class:chain", "e2e:c14:from-old:class:no-as4", "e2e:c14:from-old:class:as4-longer", "e2e:c14:from-old:class:as4-tail",
                 "e2e:c14:from-old:class:chain:confed-run", "e2e:c14:from-old:class:chain:leading-set"]
-               + ["e2e:c14:topology:n=%s,o=%s" % (a, b) for a in ("ebgp", "ibgp") for b in ("ebgp", "rrclient", "confed")],
+               + ["e2e:c14:topology:n=%s,o=%s" % (a, b) for a in ("ebgp", "ibgp") for b in ("ebgp", "rrclient", "confed")]
+               # second scenario kind of unit "e2e": the 4-octet-AS capability of one neighbour changes between its sessions
+               + ["e2e:c14:resession:scenarios", "e2e:c14:resession:nontrivial_scenarios", "e2e:c14:resession:sessions", "e2e:c14:resession:sent:routes",
+                  "e2e:c14:resession:sent:ok:2-octet", "e2e:c14:resession:sent:ok:4-octet", "e2e:c14:resession:sent:aggregator", "e2e:c14:resession:received:routes",
+                  "e2e:c14:resession:received:ok:2-octet", "e2e:c14:resession:received:ok:4-octet", "e2e:c14:resession:received:class:chain", "e2e:c14:resession:received:class:4-octet-path",
+                  "e2e:c14:resession:session:2-octet:after-4-octet-session", "e2e:c14:resession:session:4-octet:after-2-octet-session",
+                  "e2e:c14:resession:session:2-octet:first-session", "e2e:c14:resession:session:4-octet:first-session"],
     units=[dict(name="table", harness="t_table", files=["common_", "c14_"], run="TestVerifC14",
                 shards=dict(quick=16, thorough=16), timeout_s=dict(quick=600, thorough=5400)),
            dict(name="e2e", harness="t_server", files=["sim_", "e2e_"], run="TestVerifE2E_C14",
